@@ -36,6 +36,7 @@ RULE += (" Also: proper subclasses of RuntimeError raised from the block's excep
 RULE += (' Also: blocks that finish the manager\'s generator themselves (manager.gen.aclose()) before they leave, normally or by an exception.')
 RULE += (' Also: falsy Stop(Async)Iteration subclasses leaving the block.')
 RULE += (' Also: managers whose own single argument is a coroutine function (a hook).')
+RULE += (" Also: decorated callables that are plain wrappers handing back the body's coroutine.")
 ASSUMPTIONS = ["contextlib.asynccontextmanager of the running interpreter is the reference",
                "__cause__/__context__ chains and messages are not compared"]
 EXHAUSTIVE = {"quick": True, "thorough": True}
@@ -201,6 +202,7 @@ def cases(tier, seed, shard, nshards):
                 if idx % nshards == shard:
                     yield {"pre": pre, "handler": handler, "after": after, "outcome": outcome, "susp": susp, "mode": mode,
                            "ambient": idx % 3 == 0 and outcome != "GeneratorExit",
+                           "plain_wrapper": idx % 3 == 1 and mode in ("decorator", "decorator_badcall"),
                            "hook_arg": idx % 4 == 1 and outcome != "GeneratorExit" and mode in ("with", "reuse", "block_closes_gen")}
 
 
@@ -340,12 +342,18 @@ def trial(factory, case):
     async def decorated_form():
         # the manager as a decorator: every call of the function runs inside a context of its own, the call's
         # result is handed through, and a failure that the generator swallows makes the call return None
-        @cm(1, k=2, **KW)
-        async def fn(a, b=None):
+        async def fn_impl(a, b=None):
             log.append(("entered", a, b))
             if exc is not None:
                 raise exc
             return "body-result"
+
+        if case.get("plain_wrapper"):
+            # the decorated callable is a plain (not ``async def``) function handing back the coroutine of the body - a
+            # lambda, a wrapper: awaited INSIDE the context all the same
+            fn = cm(1, k=2, **KW)(lambda a, b=None: fn_impl(a, b))
+        else:
+            fn = cm(1, k=2, **KW)(fn_impl)
 
         if case.get("mode") == "decorator_badcall":
             # the decorated function is called with arguments it does not take: that call happens INSIDE the context
